@@ -6,10 +6,11 @@
 (*   entry     "boot" (first_entry: build, then re-dispatch) | "gen"       *)
 (*   compiled  the _compiled flag                                          *)
 (*   cur       id of the table object currently in self.map                *)
-(*   gmap      id of the table the generated entry point dispatches over   *)
-(*             (bound into the entry point's globals by the swap; a call   *)
-(*             already running the generated code keeps using it while a   *)
-(*             later build fills a new self.map)                           *)
+(*   gmap      id of the table that was in self.map when the generated     *)
+(*             entry point was swapped in (history only: the entry point   *)
+(*             evaluates OVLD.map at every call, so a call running the     *)
+(*             generated code while a later build fills a new self.map     *)
+(*             dispatches over that new, partial table)                    *)
 (*   tbl       table id -> bag of method ids registered in it              *)
 (*   lockh     holder of the build lock (0 = free)          [UseLock]      *)
 (*   regd      the registered method set (Unregister removes)              *)
@@ -22,7 +23,7 @@
 (* a raising user hook, an interrupt); RestoreOnFail = the handler that    *)
 (* puts the bootstrap entry back and clears _compiled.                     *)
 (*                                                                         *)
-(* A call through the generated entry dispatches over tbl[gmap] as it is   *)
+(* A call through the generated entry dispatches over tbl[cur] as it is    *)
 (* at that moment.  Methods are abstract: method ids are ranks, the        *)
 (* correct answer is the highest registered id, a method registered twice  *)
 (* in one table makes the answer "ambiguous", an empty table "nomethod".   *)
@@ -132,7 +133,7 @@ Release(t) ==
 
 Dispatch(t) ==
   /\ pc[t] = "dispatch"
-  /\ res' = [res EXCEPT ![t] = Append(@, Answer(tbl[gmap]))]
+  /\ res' = [res EXCEPT ![t] = Append(@, Answer(tbl[cur]))]
   /\ pc' = [pc EXCEPT ![t] = "idle"]
   /\ UNCHANGED <<entry, compiled, cur, gmap, tbl, lockh, regd, k, todo, nfail, ntbl>>
 
@@ -174,17 +175,17 @@ Spec == Init /\ [][Next]_vars
 (* build itself (Fail / the invalid method).                                 *)
 AnswersCorrect ==
   [][\A t \in Threads :
-       (pc[t] = "dispatch" /\ pc'[t] = "idle") => (Buildable /\ Answer(tbl[gmap]) = Correct)]_vars
+       (pc[t] = "dispatch" /\ pc'[t] = "idle") => (Buildable /\ Answer(tbl[cur]) = Correct)]_vars
 
 (* C19 (MaxFail = 0, BadM = 0): every call returns what it would alone *)
 EachAsAlone ==
   \A t \in Threads : \A j \in DOMAIN res[t] : res[t][j] = Correct \/ res[t][j] = Config
 
 FinalStateCorrect ==
-  AllDone => (entry = "gen" => (compiled /\ Buildable /\ Answer(tbl[gmap]) = Correct))
+  AllDone => (entry = "gen" => (compiled /\ Buildable /\ Answer(tbl[cur]) = Correct))
 
 (* after the offender is gone and no more faults strike, calls succeed *)
 RecoversAfterRemoval ==
   [][\A t \in Threads :
-       (pc[t] = "dispatch" /\ pc'[t] = "idle" /\ BadM \notin regd) => Answer(tbl[gmap]) = Correct]_vars
+       (pc[t] = "dispatch" /\ pc'[t] = "idle" /\ BadM \notin regd) => Answer(tbl[cur]) = Correct]_vars
 =============================================================================
